@@ -2,6 +2,7 @@ package main
 
 import (
 	"fmt"
+	"go/token"
 	"os"
 	"go/types"
 	"strings"
@@ -441,10 +442,64 @@ func (fr *Frame) havocCall(cx *callCtx, why string) []Term {
 		}
 		e.reachComps(a, reach, map[string]bool{}, true)
 	}
+	// When every argument that reaches the heap is the address of a local object of this function that is
+	// never written by this function (a zero value handed to the callee to be filled in, e.g. the list
+	// passed to client.List), the callee can only write that object and objects it allocates itself.
+	var onlyRoots []Term
+	precise := len(reach) > 0
+	for i, a := range cx.argTs {
+		if i >= len(cx.argVs) || cx.argVs[i] == nil {
+			precise = false
+			break
+		}
+		v := cx.argVs[i]
+		argTerm := cx.args[i]
+		if mi, ok := v.(*ssa.MakeInterface); ok {
+			v = mi.X
+			a = mi.X.Type()
+			argTerm = fr.val(mi.X)
+		}
+		if externalHandle(a) {
+			continue
+		}
+		r := map[string]bool{}
+		e.reachComps(a, r, map[string]bool{}, true)
+		if len(r) == 0 {
+			continue
+		}
+		if al, ok := v.(*ssa.Alloc); ok && untouchedLocal(al, 0) && onlyCallOf(al, cx.instr) {
+			if e.vc.sortOf(a) != "Loc" {
+				precise = false
+				break
+			}
+			onlyRoots = append(onlyRoots, fmt.Sprintf("(rootid %s)", argTerm))
+			continue
+		}
+		precise = false
+		break
+	}
+	pre := cx.st.clone()
 	for c := range reach {
 		if _, ok := e.compSort[c]; ok {
 			e.havocComp(cx.st, c)
 		}
+	}
+	if precise && len(onlyRoots) > 0 {
+		var ne []Term
+		for _, r := range onlyRoots {
+			ne = append(ne, fmt.Sprintf("(not (= (rootid l) %s))", r))
+		}
+		for _, c := range sortedKeys(reach) {
+			if _, ok := e.compSort[c]; !ok || !strings.HasPrefix(e.compSort[c], "(Array Loc ") {
+				continue
+			}
+			nw, old := e.get(cx.st, c), e.get(pre, c)
+			if nw == old {
+				continue
+			}
+			e.vc.assumeIf(cx.st.pc, fmt.Sprintf("(forall ((l Loc)) (! (=> (and (< (rootid l) %s) %s) (= (select %s l) (select %s l))) :pattern ((select %s l))))", pre.alloc, and(ne...), nw, old, nw))
+		}
+		e.vc.assumes["a callee handed the address of an untouched local object writes only that object and objects it allocates"] = true
 	}
 	if len(reach) > 0 {
 		na := e.vc.fresh("alloc", "Int")
@@ -452,6 +507,97 @@ func (fr *Frame) havocCall(cx *callCtx, why string) []Term {
 		cx.st.alloc = na
 	}
 	return cx.freshResults("hv." + lastSeg(cx.name))
+}
+
+// untouchedLocal: the local object is never written by this function (no store through it or through
+// addresses derived from it) and its address only goes to calls; it therefore still holds its zero value,
+// and nothing is reachable from it, when a callee receives it.
+func untouchedLocal(v ssa.Value, depth int) bool {
+	if depth > 6 || v.Referrers() == nil {
+		return false
+	}
+	for _, r := range *v.Referrers() {
+		switch r := r.(type) {
+		case *ssa.DebugRef:
+		case *ssa.UnOp:
+			if depth == 0 && r.Op != token.MUL {
+				return false
+			}
+		case *ssa.FieldAddr:
+			if !derivedReadOnly(r, depth+1) {
+				return false
+			}
+		case *ssa.IndexAddr:
+			if !derivedReadOnly(r, depth+1) {
+				return false
+			}
+		case *ssa.MakeInterface:
+			for _, r2 := range *r.Referrers() {
+				if _, ok := r2.(ssa.CallInstruction); !ok {
+					if _, ok := r2.(*ssa.DebugRef); !ok {
+						return false
+					}
+				}
+			}
+		case ssa.CallInstruction:
+		case *ssa.Store:
+			return false // the local itself is written, or its address is stored somewhere
+		default:
+			return false
+		}
+	}
+	return true
+}
+
+// onlyCallOf: the local's address goes to exactly one call, the given one, in the block that creates the
+// local (so the callee sees it exactly once, freshly zeroed, also when the code sits in a loop).
+func onlyCallOf(al *ssa.Alloc, call ssa.Instruction) bool {
+	if call == nil || al.Block() != call.Block() {
+		return false
+	}
+	n := 0
+	for _, r := range *al.Referrers() {
+		switch r := r.(type) {
+		case ssa.CallInstruction:
+			if r != call {
+				return false
+			}
+			n++
+		case *ssa.MakeInterface:
+			for _, r2 := range *r.Referrers() {
+				if c, ok := r2.(ssa.CallInstruction); ok {
+					if c != call {
+						return false
+					}
+					n++
+				}
+			}
+		}
+	}
+	return n == 1
+}
+
+// derivedReadOnly: an address derived from a local is only used to read (or to derive further read addresses).
+func derivedReadOnly(v ssa.Value, depth int) bool {
+	if depth > 6 || v.Referrers() == nil {
+		return false
+	}
+	for _, r := range *v.Referrers() {
+		switch r := r.(type) {
+		case *ssa.DebugRef, *ssa.UnOp:
+		case *ssa.FieldAddr:
+			if !derivedReadOnly(r, depth+1) {
+				return false
+			}
+		case *ssa.IndexAddr:
+			if !derivedReadOnly(r, depth+1) {
+				return false
+			}
+		default:
+			return false
+		}
+	}
+	return true
 }
 
 // externalHandle: interface types whose implementations are outside the modelled heap.
